@@ -573,6 +573,23 @@ def lib_verification(ses, rep):
     return bad
 
 
+def fallback_scenarios(rep, scen, prop):
+    """kernels undecided: every scenario of the table is run with its own command line; only a failing concrete oracle is reported"""
+    binp = common.native_build("default")
+    for sc, (files, argv, oracle) in scen.items():
+        res = clireplay.run_cli(binp, files, list(argv))
+        v = oracle(res)
+        if v:
+            st = rep.violation({"obligation": "battery-after-undecided-kernel", "scenario": sc}, {"what": "kernel undecided; scenario battery", "scenario": sc, "observed": v,
+                                                                                                   "run": {"argv": list(argv)}})
+            rep.add(f"battery/{sc}", st, v)
+
+
+def fallback(rep):
+    from . import c13
+    fallback_scenarios(rep, {**c13.SCENARIOS, **SCENARIOS, **WRITE_STATUS}, "C14")
+
+
 def replay(path):
     import json
     d = json.load(open(path))
